@@ -28,7 +28,14 @@ RULE = ("Hypothesis draws small TT-tensors (d 2..4, mode sizes 1..4(5), ranks up
         "gauss/scaled/rank_deficient/explicit).  Inside one case EVERY multi-index is forced through the sampler "
         "(counted as inner executions).  Oracle = dense reference T[i]/sum(T) resp. T[i]^2/||T||^2.  Non-trivial = some "
         "bond rank >= 2 and at least two modes of size >= 2 (grid samplers: d >= 2 and m not a multiple of some mode size; "
-        "sample_tt: r >= 2 and d >= 3); distinct by SHA-1 of the case.")
+        "sample_tt: r >= 2 and d >= 3); distinct by SHA-1 of the case.  HISTORIES (`history`): one tensor (one list object, the same "
+        "ndarray objects) is sampled, then updated by the caller IN PLACE (zero a mode slice / a rank fibre, rescale a slice or a core, "
+        "overwrite a core, put a new core object into the same list, pass another list of the same arrays) and sampled again, 1..3 "
+        "updates; after every update an ordinary call (int seed / Generator, recorded) and the full forced enumeration are audited "
+        "against the dense reference of the cores as they are NOW; non-trivial = a distribution-changing update was audited.  "
+        "GRID SAMPLERS: random shapes with mode sizes up to 80 (200) and m free or q*n_k, q*n_k+-1; `lhs_all_n` enumerates EVERY mode "
+        "size 1..128 (400) with m in {1, k-1, k, k+1, 2k-1, 2k, 2k+1, 3k, 4k, 7k, 10k, ...}, 3 int seeds and 4 Generator objects, both "
+        "int and float spellings of n and m; `tt_all_n` enumerates sample_tt for every mode size 1..128 (200) with r = k and r = 2k.")
 TOLERANCES = ("sample: |prod p - T[i]/S| <= 4 d K eps rho T[i]/S (+ n_0 unsert/S for unsert > 0), K = 32(d+sum r+sum n), rho = max "
               "abs-majorant/value ratio over all prefix marginals (1 for non-negative cores, so zero entries are exact); "
               "sample_square: eta = K eps prod||G_k||_F/||T||_F, |prod p - P| <= 4 eta (sqrt(P)+P) + 4 eta^2; every recorded p: finite, "
@@ -41,7 +48,10 @@ ASSUMPTIONS = ["d >= 2 (library-wide precondition)",
                "property does not define that case); random-draw sub-checks use unsert=0 on such tensors",
                "sample_square: exactly-zero tensors and eta > 1e-7 (cancellation-dominated) are labelled and skipped",
                "sample_square(unique=True): m <= half the number of entries with probability >= 1/(4 size), so the retry logic terminates quickly",
-               "float_cf (documented as 'TODO: check') is not exercised"]
+               "float_cf (documented as 'TODO: check') is not exercised",
+               "history: the caller's updates keep the tensor inside the domain by construction for `sample` (the positive path of the "
+               "cores is never zeroed; signed-core tensors only get whole-slice updates); for `sample_square` a history ends (labelled) "
+               "when an update makes the tensor exactly zero or ill-conditioned (eta > 1e-7)"]
 
 DELTA = 1e-12       # false-alarm level of one goodness-of-fit case
 
@@ -406,60 +416,71 @@ def square_forced_cases(draw, tier):
     return {"Y": draw(sq_specs(tier)), "unique_spelling": draw(st.booleans())}
 
 
-def sq_prepare(ctx, spec):
-    Y = gen.build_tt(spec)
+def sq_ref_labelled(ctx, Y):
+    """Reference of the squared distribution of Y as it is now; None (labelled) outside the asserted domain."""
     ref = sq_reference(Y)
-    ctx.label(*gen.spec_labels(spec), f"d=={len(spec['n'])}")
     if ref is None:
         ctx.label("zero_tensor_skipped")
-        return Y, None
+        return None
     if ref["eta"] > 1e-7:
         ctx.label("ill_conditioned_skipped")
-        return Y, None
+        return None
     if np.any(ref["F"] == 0):
         ctx.label("has_zero_entries")
-    return Y, ref
+    return ref
+
+
+def sq_prepare(ctx, spec):
+    Y = gen.build_tt(spec)
+    ctx.label(*gen.spec_labels(spec), f"d=={len(spec['n'])}")
+    return Y, sq_ref_labelled(ctx, Y)
+
+
+def forced_square_run(ctx, Y, n, ref, kw):
+    """Force every multi-index through teneva.sample_square with m = 1 (keywords `kw` select the spelling)."""
+    d = len(n)
+    K = Kc(Y)
+    run = _guard(teneva.sample_square)
+    done = 0
+    for idx in np.ndindex(*n):
+        aud = Forcer(idx, n)
+        status, out = ctx.lib(run, Y, 1, seed=aud, **kw)
+        if status == "unknown":
+            ctx.label("protocol_unknown")
+            break
+        done += 1
+        for q, _ in aud.rec:
+            check_pvec(ctx, q, K, "sample_square", target=idx)
+        prod = 1.0
+        for q, i in aud.rec:
+            prod *= float(q[i])
+        if status == "stop":
+            prod = 0.0
+            ctx.label("zero_conditional_reached")
+        else:
+            if len(aud.rec) != d:
+                ctx.label("protocol_unknown")
+                break
+            check_index_array(ctx, out, 1, n, "sample_square(m=1)")
+            ctx.check(out[0].tolist() == list(idx), "sample_square: the returned multi-index is not the one the generator picked",
+                      got=out[0], picked=idx)
+        p_ref, tol = float(ref["P"][idx]), float(ref["tol"][idx])
+        ctx.check(abs(prod - p_ref) <= tol, "sample_square: the chain of conditionals does not multiply to T[i]^2/||T||^2",
+                  target=idx, chain=prod, ref=p_ref, tol=tol, conditionals=[float(q[i]) for q, i in aud.rec])
+    return done
 
 
 def prop_square_forced(case, ctx):
     spec = case["Y"]
     n = spec["n"]
-    d = len(n)
     Y, ref = sq_prepare(ctx, spec)
     if ref is None:
         return
-    K = Kc(Y)
     # unique=True with m = 1 and m_fact = 1 draws exactly one row as well: the same distribution is claimed
     kw = dict(unique=True, m_fact=1) if case["unique_spelling"] else dict(unique=False)
     ctx.label("spelling:unique" if case["unique_spelling"] else "spelling:plain")
-    run = _guard(teneva.sample_square)
-    done = 0
     with np.errstate(all="ignore"):
-        for idx in np.ndindex(*n):
-            aud = Forcer(idx, n)
-            status, out = ctx.lib(run, Y, 1, seed=aud, **kw)
-            if status == "unknown":
-                ctx.label("protocol_unknown")
-                break
-            done += 1
-            for q, _ in aud.rec:
-                check_pvec(ctx, q, K, "sample_square", target=idx)
-            prod = 1.0
-            for q, i in aud.rec:
-                prod *= float(q[i])
-            if status == "stop":
-                prod = 0.0
-                ctx.label("zero_conditional_reached")
-            else:
-                if len(aud.rec) != d:
-                    ctx.label("protocol_unknown")
-                    break
-                check_index_array(ctx, out, 1, n, "sample_square(m=1)")
-                ctx.check(out[0].tolist() == list(idx), "sample_square: the returned multi-index is not the one the generator picked",
-                          got=out[0], picked=idx)
-            p_ref, tol = float(ref["P"][idx]), float(ref["tol"][idx])
-            ctx.check(abs(prod - p_ref) <= tol, "sample_square: the chain of conditionals does not multiply to T[i]^2/||T||^2",
-                      target=idx, chain=prod, ref=p_ref, tol=tol, conditionals=[float(q[i]) for q, i in aud.rec])
+        done = forced_square_run(ctx, Y, n, ref, kw)
     ctx.inner(max(0, done - 1))
     ctx.nontrivial(nontrivial_tt(spec) and done > 0)
 
@@ -500,6 +521,36 @@ def attribute(calls, m, d):
     return chain
 
 
+def audit_recorded(ctx, name, I, g, m, n, P, tolP, K):
+    """The requests recorded by `g` during the call that returned I: every p is a probability vector and, when the requests
+    can be attributed to the rows, the conditionals of every row multiply to its probability.  False = protocol unknown."""
+    d = len(n)
+    check_index_array(ctx, I, m, n, name)
+    for _, _, p, _ in g.calls:
+        if p is not None:
+            check_pvec(ctx, p, K, name)
+    chain = attribute(g.calls, m, d)
+    if chain is None:
+        ctx.label("protocol_unknown")
+        return False
+    for s in range(m):
+        for k in range(d):
+            nk, p, v = chain[s][k]
+            if nk != n[k] or v != int(I[s, k]):
+                ctx.label("protocol_unknown")       # requests cannot be matched with the returned rows: no claim
+                return False
+    for s in range(m):
+        prod = 1.0
+        for k in range(d):
+            nk, p, v = chain[s][k]
+            prod *= (1.0 / nk) if p is None else float(p[v])
+        row = tuple(int(v) for v in I[s])
+        p_ref, tol = float(P[row]), float(tolP[row])
+        ctx.check(abs(prod - p_ref) <= tol, f"{name}(m={m}): the conditionals used for sample {s} do not multiply to its probability",
+                  row=row, chain=prod, ref=p_ref, tol=tol)
+    return True
+
+
 def prop_chains(case, ctx):
     spec, m = case["Y"], case["m"]
     n = spec["n"]
@@ -530,31 +581,154 @@ def prop_chains(case, ctx):
         K = Kc(Y)
         P, tolP = ref["P"], ref["tol"]
         name = "sample_square"
-    check_index_array(ctx, I, m, n, name)
-    for _, _, p, _ in g.calls:
-        if p is not None:
-            check_pvec(ctx, p, K, name)
-    chain = attribute(g.calls, m, d)
-    if chain is None:
-        ctx.label("protocol_unknown")
+    if not audit_recorded(ctx, name, I, g, m, n, P, tolP, K):
         return
-    for s in range(m):
-        for k in range(d):
-            nk, p, v = chain[s][k]
-            if nk != n[k] or v != int(I[s, k]):
-                ctx.label("protocol_unknown")       # requests cannot be matched with the returned rows: no claim
-                return
-    for s in range(m):
-        prod = 1.0
-        for k in range(d):
-            nk, p, v = chain[s][k]
-            prod *= (1.0 / nk) if p is None else float(p[v])
-        row = tuple(int(v) for v in I[s])
-        p_ref, tol = float(P[row]), float(tolP[row])
-        ctx.check(abs(prod - p_ref) <= tol, f"{name}(m={m}): the conditionals used for sample {s} do not multiply to its probability",
-                  row=row, chain=prod, ref=p_ref, tol=tol)
     ctx.inner(m - 1)
     ctx.nontrivial(nontrivial_tt(spec) and m >= 2)
+
+
+# =========================================================================================== histories: the tensor as it is NOW
+
+HIST_OPS = ("zero_slice", "zero_slice", "scale_slice", "scale_core", "zero_left", "zero_right", "overwrite", "replace_obj", "none")
+HIST_C = [2.0, 0.5, 3.0, 0.125, 1e3, 1e-3, -1.0, -2.0]
+
+
+@st.composite
+def history_cases(draw, tier):
+    """One TT-tensor (one list object, the same ndarray objects) sampled, updated by the caller, sampled again, ..."""
+    which = draw(st.sampled_from(["sample", "square"]))
+    sm = 36 if tier == "quick" else 120
+    Y = draw(nn_specs(tier, size_max=sm)) if which == "sample" else draw(sq_specs(tier, size_max=sm))
+    steps = [{"op": draw(st.sampled_from(HIST_OPS)), "k": draw(st.integers(0, 3)), "j": draw(st.integers(0, 7)),
+              "c": draw(st.sampled_from(HIST_C)), "seed": draw(gen.seeds), "container": draw(st.sampled_from(["same_list", "same_list", "new_list"]))}
+             for _ in range(draw(st.integers(1, 3)))]
+    return {"which": which, "Y": Y, "steps": steps, "m": draw(st.integers(1, 8 if tier == "quick" else 30)),
+            "unique": draw(st.booleans()), "unique_spelling": draw(st.booleans()), "unsert": draw(st.sampled_from([0.0, 0.0, None])),
+            "kind": draw(st.sampled_from(SEED_KINDS)), "seed": draw(gen.seeds)}
+
+
+def apply_step(Y, step, nn, spec):
+    """The caller updates its tensor: IN PLACE inside the ndarray objects (all operations but replace_obj) or by putting a new
+    core object into the same list (replace_obj).  Returns (operation actually applied, whether the distribution changed).
+    For `sample` the update keeps T >= 0 and S > 0 by construction (the positive path of build_nn is never touched)."""
+    d = len(Y)
+    k = step["k"] % d
+    G = Y[k]
+    r1, nk, r2 = G.shape
+    op, j = step["op"], step["j"]
+    gauged = nn and spec["fam"] == "nn_gauged"
+    c = abs(step["c"]) if nn else step["c"]
+    i = j % nk
+    if nn and not gauged and i == spec["path"][k]:
+        i = (i + 1) % nk
+    if op in ("zero_slice", "replace_obj", "scale_slice") and nk == 1:
+        op = "scale_core"                              # the only slice: the tensor would become zero / only be rescaled
+    if (op == "zero_left" and r1 == 1) or (op == "zero_right" and r2 == 1):
+        op = "zero_slice" if nk >= 2 else "scale_core"
+    if gauged and op in ("zero_left", "zero_right", "overwrite"):
+        op = "scale_slice" if nk >= 2 else "scale_core"   # signed cores: only whole slices of T may be changed safely
+    if op == "zero_slice":
+        G[:, i, :] = 0.0
+    elif op == "scale_slice":
+        G[:, i, :] *= c
+    elif op == "scale_core":
+        G *= c
+    elif op == "zero_left":
+        G[(1 + j % (r1 - 1)) if nn else (j % r1), :, :] = 0.0
+    elif op == "zero_right":
+        G[:, :, (1 + j % (r2 - 1)) if nn else (j % r2)] = 0.0
+    elif op == "overwrite":
+        rng = np.random.default_rng(step["seed"])
+        if nn:
+            H = rng.uniform(0.0, 4.0, size=G.shape) * (rng.uniform(size=G.shape) >= 0.2)
+            if not H[0, spec["path"][k], 0] > 0:
+                H[0, spec["path"][k], 0] = 1.0
+        elif step["seed"] % 2:
+            H = rng.integers(-3, 4, size=G.shape).astype(float)
+        else:
+            H = rng.standard_normal(G.shape)
+        G[...] = H
+    elif op == "replace_obj":
+        H = G.copy()
+        H[:, i, :] = 0.0
+        Y[k] = H                                       # a new core object in the SAME list object
+    return op, op not in ("none", "scale_core")
+
+
+def history_real_call(ctx, case, which, Ycall, n, ref, mkseed):
+    """One ordinary call (int seed or Generator object) on the current tensor: shape/bounds/uniqueness, no row at a zero
+    entry, and - for Generator objects - the recorded conditionals multiply to the probability of the drawn rows."""
+    m, d = case["m"], len(n)
+    K = Kc(Ycall)
+    seed = mkseed()
+    rec = Recorder(seed) if not isinstance(seed, int) else None
+    arg = seed if rec is None else rec
+    if which == "sample":
+        use_default = case["unsert"] is None and bool(np.all(ref["M0"] > 0))
+        kw = {} if use_default else {"unsert": 0.0}
+        u = 1e-10 if use_default else 0.0
+        I = ctx.lib(teneva.sample, Ycall, m, arg, **kw)
+        check_index_array(ctx, I, m, n, "sample")
+        if not use_default and ref["rho"] == 1.0:
+            vals = ref["F"][tuple(I.T)]
+            ctx.check(bool(np.all(vals > 0)), "sample(unsert=0) returned a multi-index whose entry is zero in the tensor as it is now",
+                      row=I[int(np.argmin(vals))], value=float(vals.min()))
+        if rec is not None:
+            tolP = 4 * d * K * EPS * ref["rho"] * ref["P"] + n[0] * u / ref["S"] * (1 + 1e-9)
+            audit_recorded(ctx, "sample", I, rec, m, n, ref["P"], tolP, K)
+        return
+    P, tol = ref["P"], ref["tol"]
+    sharp = ref["eta"] <= 1e-10
+    if case["unique"]:
+        n_eff = int(np.sum(P >= 1.0 / (4 * P.size)))
+        mu = min(m, max(1, n_eff // 2))
+        I = ctx.lib(teneva.sample_square, Ycall, mu, seed=arg)
+        check_index_array(ctx, I, mu, n, "sample_square(unique=True)")
+        ctx.check(len({tuple(row) for row in I.tolist()}) == mu, "sample_square(unique=True) returned repeated rows", rows=I, m=mu)
+    else:
+        I = ctx.lib(teneva.sample_square, Ycall, m, False, arg)
+        check_index_array(ctx, I, m, n, "sample_square(unique=False)")
+    bad = P[tuple(I.T)] <= 2 * tol[tuple(I.T)]
+    ctx.check(not (sharp and np.any(bad)), "sample_square returned a multi-index whose entry is zero in the tensor as it is now "
+              "(probability below 1e-18)", row=I[int(np.argmax(bad))])
+    if rec is not None and not case["unique"]:
+        audit_recorded(ctx, "sample_square", I, rec, m, n, P, tol, K)
+
+
+def prop_history(case, ctx):
+    which, spec = case["which"], case["Y"]
+    nn = which == "sample"
+    n = spec["n"]
+    Y = build_nn(spec) if nn else gen.build_tt(spec)             # ONE list object for the whole history
+    ctx.label("which:" + which, "seed:" + case["kind"], f"d=={len(n)}", "fam:" + spec["fam"])
+    sq_kw = dict(unique=True, m_fact=1) if case["unique_spelling"] else dict(unique=False)
+    done, changed_audited = 0, False
+    with np.errstate(all="ignore"):
+        for t, step in enumerate([None] + case["steps"]):
+            changed, Ycall = False, Y
+            if step is not None:
+                op, changed = apply_step(Y, step, nn, spec)
+                ctx.label("op:" + op, "container:" + step["container"])
+                if step["container"] == "new_list":
+                    Ycall = list(Y)                                  # another list holding the same ndarray objects
+            # the reference is computed from the cores as they are NOW, before the library sees them again
+            if nn:
+                ref = nn_reference(Y)
+                if ref is None or ref["rho"] > 1e4:
+                    ctx.label("reference_undefined_skipped")
+                    break
+            else:
+                ref = sq_ref_labelled(ctx, Y)
+                if ref is None:
+                    break
+            history_real_call(ctx, case, which, Ycall, n, ref, lambda: make_seed(case["kind"], case["seed"]))
+            if nn:
+                done += forced_sample_run(ctx, Ycall, n, ref, case["unsert"])
+            else:
+                done += forced_square_run(ctx, Ycall, n, ref, sq_kw)
+            changed_audited = changed_audited or (changed and t > 0)
+    ctx.inner(max(0, done - 1))
+    ctx.nontrivial(nontrivial_tt(spec) and changed_audited and done > 0)
 
 
 # =========================================================================================== structure of the TT samplers
@@ -620,9 +794,18 @@ def prop_structure_tt(case, ctx):
 @st.composite
 def grid_cases(draw, tier):
     d = draw(st.integers(1, 6))
-    n = [draw(st.integers(1, 9 if tier == "quick" else 20)) for _ in range(d)]
+    small = st.integers(1, 9 if tier == "quick" else 20)
+    size = st.one_of(small, small, st.integers(10, 80 if tier == "quick" else 200))
+    n = [draw(size) for _ in range(d)]
+    # m free, or tied to one of the mode sizes (an exact multiple, one more, one less): the count claim is sharpest there
+    m_kind = draw(st.sampled_from(["free", "free", "multiple", "multiple", "multiple+1", "multiple-1"]))
+    if m_kind == "free":
+        m = draw(st.integers(1, 50 if tier == "quick" else 200))
+    else:
+        q = draw(st.integers(1, 6 if tier == "quick" else 25))
+        m = max(1, q * n[draw(st.integers(0, d - 1))] + {"multiple": 0, "multiple+1": 1, "multiple-1": -1}[m_kind])
     return {"n": n, "n_kind": draw(st.sampled_from(["list", "int_array", "float_array", "float_list"])),
-            "m": draw(st.integers(1, 50 if tier == "quick" else 200)), "m_float": draw(st.booleans()),
+            "m": m, "m_kind": m_kind, "m_float": draw(st.booleans()),
             "kind": draw(st.sampled_from(SEED_KINDS)), "seed": draw(gen.seeds)}
 
 
@@ -644,7 +827,9 @@ def lhs_counts_ok(col, k, m):
 def prop_grid(case, ctx):
     n, m = case["n"], case["m"]
     marg = float(m) if case["m_float"] else m
-    ctx.label("seed:" + case["kind"], "n:" + case["n_kind"], f"d=={len(n)}" if len(n) <= 2 else "d>=3")
+    ctx.label("seed:" + case["kind"], "n:" + case["n_kind"], f"d=={len(n)}" if len(n) <= 2 else "d>=3", "m:" + case.get("m_kind", "free"))
+    if max(n) >= 22:
+        ctx.label("mode>=22")
     I = ctx.lib(teneva.sample_rand, shape_arg(n, case["n_kind"]), marg, make_seed(case["kind"], case["seed"]))
     check_index_array(ctx, I, m, n, "sample_rand")
     I = ctx.lib(teneva.sample_lhs, shape_arg(n, case["n_kind"]), marg, make_seed(case["kind"], case["seed"]))
@@ -657,6 +842,47 @@ def prop_grid(case, ctx):
     ctx.nontrivial(len(n) >= 2 and any(m % k for k in n))
 
 
+# ---- every mode size: the count claim is a statement about the pair (mode size, m); the pairs where it is sharpest (m an exact
+#      multiple of the mode size: every index exactly m/n times; one more / one less; m = 1) are enumerated for ALL mode sizes.
+
+LHS_SEEDS = (("int", 0), ("int", 1), ("int", 20240927), ("pcg64", 5), ("philox", 7), ("mt19937", 3), ("sfc64", 11))
+N_KINDS = ("list", "int_array", "float_array", "float_list")
+
+
+def lhs_ms(k, tier):
+    mult = (1, 2, 3, 4, 7, 10) if tier == "quick" else (1, 2, 3, 4, 5, 7, 10, 16, 25, 100)
+    ms = {1, k - 1, k + 1, 2 * k - 1, 2 * k + 1} | {q * k for q in mult}
+    return sorted(m for m in ms if m >= 1)
+
+
+def lhs_all_n_cases(tier, shard, nshards):
+    kmax = 128 if tier == "quick" else 400
+    for k in range(1, kmax + 1):
+        if (k - 1) % nshards == shard:
+            yield {"k": k, "partner": kmax + 1 - k, "ms": lhs_ms(k, tier), "n_kind": N_KINDS[k % 4]}
+
+
+def prop_lhs_all_n(case, ctx):
+    k = case["k"]
+    n = [k, case["partner"]]
+    runs = 0
+    for kind, sd in LHS_SEEDS:
+        seed = make_seed(kind, sd + k)                 # a Generator object is reused for all m (its state moves on), an int is not
+        for j, m in enumerate(case["ms"]):
+            marg = float(m) if (j + k) % 3 == 0 else m
+            I = ctx.lib(teneva.sample_lhs, shape_arg(n, case["n_kind"]), marg, seed)
+            check_index_array(ctx, I, m, n, "sample_lhs")
+            for a in range(2):
+                ok, cnt = lhs_counts_ok(I[:, a], n[a], m)
+                ctx.check(ok, "sample_lhs: an index of a mode is used neither floor(m/n) nor ceil(m/n) times", mode=a, n_k=n[a], m=m,
+                          seed=kind, floor=m // n[a], ceil=-(-m // n[a]),
+                          wrong={int(i): int(c) for i, c in enumerate(cnt) if c not in (m // n[a], -(-m // n[a]))})
+            runs += 1
+    ctx.label("mode>=22" if k >= 22 else "mode<22", "n:" + case["n_kind"])
+    ctx.inner(runs - 1)
+    ctx.nontrivial(k >= 2)
+
+
 # =========================================================================================== sample_tt
 
 @st.composite
@@ -667,17 +893,8 @@ def tt_cases(draw, tier):
             "r_default": draw(st.integers(0, 5)) == 0, "kind": draw(st.sampled_from(SEED_KINDS)), "seed": draw(gen.seeds)}
 
 
-def prop_sample_tt(case, ctx):
-    n = case["n"]
+def check_tt_layout(ctx, out, n, r):
     d = len(n)
-    seed = make_seed(case["kind"], case["seed"])
-    if case["r_default"]:
-        r = 4
-        out = ctx.lib(teneva.sample_tt, shape_arg(n, case["n_kind"]), seed=seed)
-    else:
-        r = case["r"]
-        out = ctx.lib(teneva.sample_tt, shape_arg(n, case["n_kind"]), r, seed)
-    ctx.label("seed:" + case["kind"], f"d=={d}", "r_default" if case["r_default"] else "r_given")
     ctx.check(isinstance(out, tuple) and len(out) == 3, "sample_tt: result is not a triple")
     I, idx, idx_many = out
     len1 = [1] + [r] * (d - 1)
@@ -692,15 +909,52 @@ def prop_sample_tt(case, ctx):
     for k in range(d):
         B = I[idx[k]:idx[k + 1]].reshape(n[k], len1[k], len2[k], d)
         ctx.check(bool(np.all(B[..., k] == np.arange(n[k])[:, None, None])), "sample_tt: inside block k the k-th index does not run slowest over 0..n_k-1",
-                  block=k, column=B[..., k].ravel())
+                  block=k, column=B[..., k].ravel()[:200])
         pre, suf = B[0, :, 0, :k], B[0, 0, :, k + 1:]
         ctx.check(bool(np.all(B[..., :k] == pre[None, :, None, :])), "sample_tt: prefixes of block k do not form (prefix slow) x (suffix fast) cross product", block=k)
         ctx.check(bool(np.all(B[..., k + 1:] == suf[None, None, :, :])), "sample_tt: suffixes of block k do not form (prefix slow) x (suffix fast) cross product", block=k)
         for part, off, what in ((pre, 0, "prefixes"), (suf, k + 1, "suffixes")):
             for j in range(part.shape[1]):
                 ok, cnt = lhs_counts_ok(part[:, j], n[off + j], r)
-                ctx.check(ok, f"sample_tt: the {what} of block k are not a Latin-hypercube sample of r rows", block=k, mode=off + j, counts=cnt, r=r)
+                ctx.check(ok, f"sample_tt: the {what} of block k are not a Latin-hypercube sample of r rows", block=k, mode=off + j, n_k=n[off + j],
+                          counts=cnt, r=r)
+
+
+def prop_sample_tt(case, ctx):
+    n = case["n"]
+    d = len(n)
+    seed = make_seed(case["kind"], case["seed"])
+    if case["r_default"]:
+        r = 4
+        out = ctx.lib(teneva.sample_tt, shape_arg(n, case["n_kind"]), seed=seed)
+    else:
+        r = case["r"]
+        out = ctx.lib(teneva.sample_tt, shape_arg(n, case["n_kind"]), r, seed)
+    ctx.label("seed:" + case["kind"], f"d=={d}", "r_default" if case["r_default"] else "r_given")
+    check_tt_layout(ctx, out, n, r)
     ctx.nontrivial(r >= 2 and d >= 3)
+
+
+def tt_all_n_cases(tier, shard, nshards):
+    """Every mode size with the rank an exact multiple of it (the LHS prefixes / suffixes must then be exactly balanced)."""
+    kmax = 128 if tier == "quick" else 200
+    j = 0
+    for k in range(1, kmax + 1):
+        for q in (1, 2):
+            if q * k > kmax:
+                continue
+            if j % nshards == shard:
+                # the large modes sit at the ends (blocks of n_k*r rows), never in the middle (n_k*r*r rows)
+                yield {"n": [k, 2, k] if k % 2 else [k, k], "r": q * k, "kind": SEED_KINDS[1 + j % 5], "seed": j}
+            j += 1
+
+
+def prop_tt_all_n(case, ctx):
+    n, r = case["n"], case["r"]
+    out = ctx.lib(teneva.sample_tt, list(n), r, make_seed(case["kind"], case["seed"]))
+    ctx.label("seed:" + case["kind"], "mode>=22" if max(n) >= 22 else "mode<22")
+    check_tt_layout(ctx, out, n, r)
+    ctx.nontrivial(r >= 2)
 
 
 # =========================================================================================== goodness of fit (protocol independent)
@@ -755,8 +1009,11 @@ SUBCHECKS = [
     Sub("sample_forced", prop_sample_forced, strategy=sample_forced_cases, quick=200, thorough=2000),
     Sub("square_forced", prop_square_forced, strategy=square_forced_cases, quick=200, thorough=2000),
     Sub("chains", prop_chains, strategy=chain_cases, quick=250, thorough=3000),
+    Sub("history", prop_history, strategy=history_cases, quick=70, thorough=800),
     Sub("structure_tt", prop_structure_tt, strategy=structure_tt_cases, quick=150, thorough=2000),
     Sub("grid", prop_grid, strategy=grid_cases, quick=250, thorough=4000),
+    Sub("lhs_all_n", prop_lhs_all_n, enumerate=lhs_all_n_cases, exhaustive=True),
     Sub("sample_tt", prop_sample_tt, strategy=tt_cases, quick=120, thorough=1500),
+    Sub("tt_all_n", prop_tt_all_n, enumerate=tt_all_n_cases, exhaustive=True),
     Sub("gof", prop_gof, strategy=gof_cases, quick=12, thorough=60),
 ]
